@@ -14,12 +14,17 @@ Every function is emitted with its source location; `self.foo(..)` calls go thro
 api -> oep -> *_default which is fixed by name in CALLS (the harness compares the value of every public
 formula with the real Rust call on all four backends, which guards this table as well as the parser).
 """
-import re, sys, hashlib
+import os, re, sys, hashlib
 from pathlib import Path
 
-REPO = Path("/repo")
+REPO = Path(os.environ.get("C12_REPO", "/repo"))   # C12_REPO: self-test against a mutated copy
+OUT_OVERRIDE = os.environ.get("C12_GEN_OUT")
 VERIF = Path(__file__).resolve().parent.parent
 OUT = VERIF / "coq" / "Gen" / "C12TmpBytes_gen.v"
+
+
+if os.environ.get("C12_GEN_OUT"):
+    OUT = Path(os.environ["C12_GEN_OUT"])
 
 
 class TranslateError(Exception):
@@ -829,7 +834,7 @@ def main(write=True):
     if write and changed:
         OUT.parent.mkdir(exist_ok=True)
         OUT.write_text(text)
-    return {"file": str(OUT.relative_to(VERIF)), "changed": changed, "functions": len(srcs),
+    return {"file": str(OUT.relative_to(VERIF)) if str(OUT).startswith(str(VERIF)) else str(OUT), "changed": changed, "functions": len(srcs),
             "sha256": hashlib.sha256(text.encode()).hexdigest(), "sources": srcs}
 
 
